@@ -1,1 +1,51 @@
-// placeholder
+//! C09 — version gate decision function (its application inside the connection is outside: DESIGN.md C09).
+use crate::common::*;
+use crate::gen_tables::*;
+use insim::identifiers::RequestId;
+use insim::insim::Ver;
+use insim::Packet;
+
+#[kani::proof]
+#[kani::unwind(8)]
+#[kani::stub(alloc::fmt::format, stub_format)]
+fn c09_gate_every_version() {
+    let v: u8 = kani::any();
+    let mut ver = Ver::default();
+    ver.insimver = v;
+    ver.reqi = RequestId(kani::any());
+    let p = Packet::Ver(ver);
+    let r = p.maybe_verify_version();
+    match &r {
+        Ok(b) => {
+            assert!(v == 9, "C09:accepted only for InSim version 9");
+            assert!(*b, "C09:a version packet is reported as verified");
+            kani::cover!(true, "version 9 accepted");
+        }
+        Err(insim::Error::IncompatibleVersion(x)) => {
+            assert!(v != 9, "C09:version 9 must not be rejected");
+            assert!(*x == v, "C09:the error carries the reported version");
+            kani::cover!(v == 8, "version 8 rejected");
+            kani::cover!(v == 10, "version 10 rejected");
+        }
+        Err(_) => assert!(false, "C09:only the incompatible-version error is produced"),
+    }
+    assert!(insim::VERSION == 9, "C09:library speaks InSim 9");
+    std::mem::forget(r);
+    std::mem::forget(p);
+}
+
+#[kani::proof]
+#[kani::unwind(42)]
+#[kani::stub(alloc::fmt::format, stub_format)]
+#[kani::stub(std::hash::RandomState::new, stub_random_state)]
+fn c09_gate_other_kinds() {
+    let i: usize = kani::any();
+    kani::assume(i < PACKET_KIND_COUNT && i != VER_INDEX);
+    let p = packet_default_by_index(i);
+    let r = p.maybe_verify_version();
+    let pass = matches!(&r, Ok(false));
+    std::mem::forget(r);
+    std::mem::forget(p);
+    assert!(pass, "C09:no other packet kind is ever rejected or claimed verified");
+    kani::cover!(i == 0, "first kind reached");
+}
